@@ -611,7 +611,7 @@ class TracedMemory:
         object.__setattr__(self, k, v)
 
 
-@harness('D1', targets=['kopf._core.engines.daemons.spawn_daemons', 'kopf._core.engines.daemons._runner'], props=['C09', 'C10', 'C13'],
+@harness('D1', targets=['kopf._core.engines.daemons.spawn_daemons', 'kopf._core.engines.daemons._runner'], props=['C09', 'C10', 'C13', 'C06', 'C20'],
          clauses=['spawn_only_absent', 'atomic_register', 'runner_wired', 'frame',
                   'wraps_by_kind', 'forever_stopped_iff_self_exit', 'removal_last', 'done_flag', 'propagates',
                   'live_body_kept_while_shared'],
